@@ -290,6 +290,12 @@ def main():
         if st:
             for v in st.get("violations") or []:
                 violations.append((v["class"], v["replay"], v["msg"]))
+        else:
+            # a process that did not get to write its statistics (it hung in a later test and was
+            # stopped, or died): what it had recorded until then is in its output
+            for m in re.finditer(r"VIOLATION-RECORD property=\S+ check=\S+ class=(\S+) replay=(\S+)\n  ([^\n]*)", text):
+                if os.path.exists(m.group(2)) and not Known_class(pid, m.group(1)):
+                    violations.append((m.group(1), m.group(2), m.group(3)))
 
     # regression tier: saved minimal failing cases of repaired defects, re-run without rapid
     regdir = os.path.join(ROOT, "regress", pid)
